@@ -149,7 +149,7 @@ class Index:
                 name = name + '<' + ', '.join(_targ_str(a) for a in ta) + '>'
             q = ctx + '::' + name if ctx else name
             if n.get('inner'):
-                self.records[q] = n
+                self.records[norm_class(q)] = n
             for c in n.get('inner', []):
                 self._walk(c, q)
         elif k == 'ClassTemplateDecl':
@@ -179,7 +179,7 @@ class Index:
                 self._walk(c, ctx)
 
     def find(self, qname, sig=None, mangled=None, targs=None):
-        c = [f for f in self.funcs if f['qname'] == qname]
+        c = [f for f in self.funcs if norm_class(f['qname']) == norm_class(qname)]
         if mangled:
             c = [f for f in c if f['mangled'] == mangled]
         if sig:
@@ -240,18 +240,67 @@ def norm_class(t):
     t = re.sub(r'\s+>', '>', t)
     if t in ('basic_string<char>', 'std::string', 'string'):
         t = 'std::basic_string<char>'
-    if t.startswith('vector<'):
-        t = 'std::' + t
+    t = re.sub(r'(?<![A-Za-z0-9_:])(vector|shared_ptr|unique_ptr|deque|map|set|pair)<', r'std::\1<', t)
+    t = t.replace('bpp::', '')
     return t
+
+MANGLE_ALIAS = {'std::basic_string<char>': 'Str', 'std::string': 'Str'}
 
 def mangle(t):
     t = norm_class(t)
+    if t in MANGLE_ALIAS:
+        return MANGLE_ALIAS[t]
+    if t.endswith('*'):
+        return 'p_' + mangle(t[:-1])
+    pl = ptrlike(t)
+    if pl is not None:
+        return 'p_' + mangle(pl)
+    for pre, nm in (('std::vector<', 'Vec_'), ('std::deque<', 'Deq_'), ('bpp::Vector<', 'Vec_')):
+        if t.startswith(pre) and t.endswith('>'):
+            return nm + mangle(t[len(pre):-1])
     if t.startswith('bpp::'):
         t = t[5:]
     t = t.replace('bpp::', '')
     t = t.replace('unsigned long', 'ulong').replace('unsigned int', 'uint').replace('long double', 'ldouble')
     t = re.sub(r'[^A-Za-z0-9_]+', '_', t).strip('_')
     return t
+
+PTRLIKE_RE = re.compile(r'^(?:std::)?(shared_ptr|unique_ptr|__shared_ptr|__shared_ptr_access|weak_ptr)<')
+
+def ptrlike(t):
+    """pointee type string when t is a smart-pointer class (identity = raw pointer; ownership is not modelled)"""
+    t = norm_class(t)
+    m = PTRLIKE_RE.match(t)
+    if not m:
+        return None
+    i = m.end(); d = 0; j = i
+    while j < len(t):
+        ch = t[j]
+        if ch == '<': d += 1
+        elif ch == '>':
+            if d == 0: break
+            d -= 1
+        elif ch == ',' and d == 0:
+            break
+        j += 1
+    # the class must end at the closing '>' of this template-id (no nested-name like ::element_type)
+    k = j; d = 0
+    while k < len(t):
+        if t[k] == '<': d += 1
+        elif t[k] == '>':
+            if d == 0: break
+            d -= 1
+        k += 1
+    if t[k + 1:].strip() not in ('',):
+        return None
+    return t[i:j].strip()
+
+def element_type_alias(t):
+    """std::__shared_ptr_access<T,...>::element_type -> T"""
+    m = re.match(r'^(std::__shared_ptr_access<.*>)::element_type$', t)
+    if m:
+        return ptrlike(m.group(1))
+    return None
 
 class Types:
     def __init__(self, table=None):
@@ -272,6 +321,9 @@ class Types:
         if t0 in BUILTIN:
             return BUILTIN[t0]
         k = norm_class(t0)
+        ea = element_type_alias(k)
+        if ea:
+            return self.base(ea)
         if k in self.table:
             return self.table[k]
         if re.match(r'^[A-Za-z_][A-Za-z0-9_:<>, ]*$', k):
@@ -305,6 +357,9 @@ class Types:
         t2 = strip_cv(t)
         if t2.endswith('*'):
             return self._c(t2[:-1]) + '*'
+        pl = ptrlike(t2)
+        if pl is not None:
+            return self._c(pl) + '*'
         m = re.match(r'^(.*)\[(\d+)\]$', t2)
         if m:
             return self._c(m.group(1)) + '*'
@@ -316,11 +371,13 @@ class Types:
         t = strip_cv(t)
         while t.endswith('*') or t.endswith('&'):
             t = strip_cv(t[:-1])
-        return norm_class(t)
+        t = norm_class(t)
+        ea = element_type_alias(t)
+        return norm_class(ea) if ea else t
 
     def is_scalar(self, tobj):
         t = strip_cv(self.qt(tobj))
-        if t.endswith('*'):
+        if t.endswith('*') or ptrlike(t) is not None or t in ('std::nullptr_t', 'nullptr_t'):
             return True
         return t in BUILTIN or t.startswith('enum ')
 
@@ -354,6 +411,18 @@ class Cfg:
     """per-unit lowering configuration"""
     def __init__(self, types=None, rename=None, free=None, defaults=None, drop=None, throws=None,
                  plain=None, consts=None, exc_tree=None, dyncast=None, range_for=None, ghost_fields=None, ctor_tag=None):
+        def nk(k):
+            if isinstance(k, tuple) and len(k) >= 2 and k[0] == 'ctor':
+                return (k[0], norm_class(k[1])) + tuple(k[2:])
+            if isinstance(k, tuple) and len(k) >= 2:
+                return (norm_class(k[0]),) + tuple(k[1:])
+            return k
+        types = {norm_class(k): v for k, v in (types or {}).items()}
+        rename = {nk(k): v for k, v in (rename or {}).items()}
+        plain = {norm_class(k) for k in (plain or ())}
+        range_for = {norm_class(k): v for k, v in (range_for or {}).items()}
+        ghost_fields = {norm_class(k): v for k, v in (ghost_fields or {}).items()}
+        ctor_tag = {norm_class(k): v for k, v in (ctor_tag or {}).items()}
         self.types = Types(types)
         self.rename = dict(rename or {})      # (class, member, arity[, sig]) -> C name
         self.free = dict(free or {})          # (name[, type]) -> C name   for free / static functions
@@ -640,6 +709,8 @@ class FnLower:
     def construct_into(self, target, u, decl=None):
         """statements constructing an object of class type in place: target is an lvalue text"""
         cls = self.T.cls(u['type'])
+        if ptrlike(cls) is not None:
+            return [('%s %s = %s;' % (decl, target, self.expr(u))) if decl else '%s = %s;' % (target, self.expr(u))]
         cty = self.T.base(cls)
         args = list(u.get('inner', []))
         r = []
@@ -835,8 +906,7 @@ class FnLower:
             else:
                 ecls = self.T.cls(var['type'])
                 condc = 'verif_exc_isa(verif_exc, EXC_%s)' % mangle(ecls)
-                if var.get('isUsed') or var.get('isReferenced'):
-                    self.brk(c, 'exception object used in handler')
+                # the exception object itself is not modelled: a use that survives the lowering fails to compile (exit 2)
             hb = self.handler_block(hbody)
             r.append('  if (%s) {' % condc)
             r.append('    verif_exc_caught = verif_exc; verif_exc = 0;')
@@ -864,8 +934,8 @@ class FnLower:
             self.brk(n, 'range-for over %s' % cls)
         size_fn, at_fn = self.cfg.range_for[cls]
         self.callees.update([size_fn, at_fn])
-        rng = self.tmp('verif_rng')
-        idx = self.tmp('verif_i')
+        rng = 'verif_rng%d' % (self.nloops + 1)
+        idx = 'verif_i%d' % (self.nloops + 1)
         re_ = self.ref_bind(rinit)
         r = ['{']
         r += ['  ' + l for l in self.flush_pre()]
@@ -912,6 +982,8 @@ class FnLower:
                 self.brk(n, 'member call through %s' % me.get('kind'))
             obj = me['inner'][0]
             cls = self.T.cls(obj['type'])
+            if ptrlike(cls) is not None:
+                return None
             nargs = len(n['inner']) - 1
             return self.resolve_member(cls, me['name'], nargs, n)
         if k == 'CXXOperatorCallExpr':
@@ -919,6 +991,8 @@ class FnLower:
             rd = cal.get('referencedDecl', {})
             name = rd.get('name')
             args = n['inner'][1:]
+            if args and any(ptrlike(self.T.cls(a['type'])) is not None for a in args[:2]) and name in ('operator->', 'operator*', 'operator=', 'operator==', 'operator!=', 'operator bool'):
+                return None
             if rd.get('kind') == 'CXXMethodDecl':
                 cls = self.T.cls(args[0]['type'])
                 return self.resolve_member(cls, name, len(args) - 1, n, sig=rd.get('type', {}).get('qualType'))
@@ -934,6 +1008,8 @@ class FnLower:
             self.brk(n, 'indirect call')
         if k in ('CXXConstructExpr', 'CXXTemporaryObjectExpr'):
             cls = self.T.cls(n['type'])
+            if ptrlike(cls) is not None:
+                return None
             if self.is_copy_ctor(n) and len(n.get('inner', [])) == 1:
                 a = n['inner'][0]
                 if n.get('elidable') or unwrap_mat(a).get('valueCategory') == 'prvalue' or cls in self.cfg.plain:
@@ -1194,6 +1270,8 @@ class FnLower:
             return '0'
         if ck in ('DerivedToBase', 'UncheckedDerivedToBase', 'BaseToDerived'):
             t = self.T.qt(n['type'])
+            if ptrlike(self.T.cls(n['type'])) is not None and ptrlike(self.T.cls(inner['type'])) is not None:
+                return e
             if n.get('valueCategory') in ('lvalue', 'xvalue'):
                 return '(*(%s*)%s)' % (self.T.base(self.T.cls(n['type'])), self.addr(e))
             return '((%s)%s)' % (self.T.c(n['type']), e)
@@ -1233,6 +1311,18 @@ class FnLower:
 
     def e_CXXMemberCallExpr(self, n, stmt=False):
         me = unwrap(n['inner'][0])
+        if me.get('kind') == 'MemberExpr' and ptrlike(self.T.cls(me['inner'][0]['type'])) is not None:
+            o = self.expr(me['inner'][0])
+            nm = me['name']
+            if nm == 'operator bool':
+                return '(%s != 0)' % o
+            if nm == 'get':
+                return o
+            if nm == 'reset' and len(n['inner']) == 1:
+                return '(%s = 0)' % o
+            if nm == 'reset' and len(n['inner']) == 2:
+                return '(%s = %s)' % (o, self.expr(n['inner'][1]))
+            self.brk(n, 'smart pointer member %s' % nm)
         fn = self.callee_name(n)
         if fn in self.cfg.drop:
             self.dropped.append(fn)
@@ -1257,6 +1347,17 @@ class FnLower:
         cal = unwrap_casts(n['inner'][0])
         rd = cal.get('referencedDecl', {})
         args = n['inner'][1:]
+        if args and any(ptrlike(self.T.cls(a['type'])) is not None for a in args[:2]) and rd.get('name') in ('operator->', 'operator*', 'operator=', 'operator==', 'operator!=', 'operator bool'):
+            nm = rd['name']
+            a0 = self.expr(args[0])
+            if nm == 'operator->':
+                return a0
+            if nm == 'operator*':
+                return '(*%s)' % a0
+            a1 = self.expr(args[1])
+            if nm == 'operator=':
+                return '(%s = %s)' % (a0, a1)
+            return '(%s %s %s)' % (a0, nm[len('operator'):], a1)
         fn = self.callee_name(n)
         if fn in self.cfg.drop:
             self.dropped.append(fn)
@@ -1285,6 +1386,13 @@ class FnLower:
     def e_CXXConstructExpr(self, n):
         cls = self.T.cls(n['type'])
         args = list(n.get('inner', []))
+        if ptrlike(cls) is not None:
+            args = [a for a in args if a.get('kind') != 'CXXDefaultArgExpr']
+            if not args:
+                return '((%s)0)' % self.T.c(n['type'])
+            if len(args) == 1:
+                return '((%s)%s)' % (self.T.c(n['type']), self.expr(args[0]))
+            self.brk(n, 'smart pointer construction with %d arguments' % len(args))
         if len(args) == 1 and self.is_copy_ctor(n):
             a = args[0]
             if n.get('elidable') or unwrap_mat(a).get('valueCategory') == 'prvalue':
@@ -1428,6 +1536,7 @@ def struct_text(index, cfg, qname, cname=None, extra=''):
     """C struct for class qname: base-class fields first (flattened), then own fields; ghost fields per cfg"""
     fields = []
     def rec(q):
+        q = norm_class(q)
         r = index.records.get(q)
         if r is None:
             if q in cfg.ghost_fields:   # abstract base outside the dump: ghost fields only
